@@ -217,6 +217,33 @@ Proof.
       rewrite H3. destruct hs as [h|]; [|reflexivity]. cbn. now rewrite strip_idem.
 Qed.
 
+Lemma run_methods : forall cfg legacy method uri hs resps,
+  methods_ok cfg method resps (tl (fst (run cfg legacy method uri hs resps))).
+Proof.
+  intros. unfold run.
+  pose proof (follow_methods cfg legacy resps method uri uri hs 0) as H.
+  destruct (follow cfg legacy resps method uri uri hs 0). exact H.
+Qed.
+
+Lemma run_sensitive : forall cfg legacy method uri hs resps,
+  Forall (fun q => (carries_sensitive cfg q -> same_origin uri (q_uri q) = true)
+                   /\ match q_headers q, hs with
+                      | Some h, Some h0 => strip cfg h = strip cfg h0 /\ (h = h0 \/ h = strip cfg h0)
+                      | None, None => True
+                      | _, _ => False
+                      end)
+         (tl (fst (run cfg legacy method uri hs resps))).
+Proof.
+  intros. unfold run.
+  pose proof (follow_sensitive cfg legacy resps method uri uri hs 0) as H.
+  destruct (follow cfg legacy resps method uri uri hs 0) as [reqs out]. cbn [fst tl] in *.
+  eapply Forall_impl; [|exact H]. cbn beta. intros q (H1 & H2 & H3). split; [assumption|].
+  unfold stripped_view in *.
+  destruct (q_headers q) as [h|], hs as [h0|]; try discriminate; try exact I;
+    try (destruct H3; discriminate).
+  split; [congruence|]. destruct H3 as [H3 | H3]; inversion H3; auto.
+Qed.
+
 (** * F9: the code at the pinned commit resolves against the original URI *)
 Definition f9_cfg : config := mkConfig [301; 302; 307; 308] [303] 20 default_sensitive.
 Definition f9_uri : bytes := [104;116;116;112;58;47;47;97;46;101;120;97;109;112;108;101;47;112;47;113].
@@ -230,8 +257,10 @@ Definition f9_resps : list response :=
 Lemma legacy_refuted :
   ~ chain_ok f9_uri f9_resps (tl (fst (run f9_cfg true GET f9_uri None f9_resps))).
 Proof.
-  intro H. vm_compute in H.
-  destruct H as (_ & (loc & others & Hl & Hu) & _).
+  remember (tl (fst (run f9_cfg true GET f9_uri None f9_resps))) as reqs eqn:E.
+  vm_compute in E. subst reqs. unfold f9_resps.
+  cbn [chain_ok p_locations q_uri].
+  intros (_ & (loc & others & Hl & Hu) & _).
   inversion Hl; subst loc others. vm_compute in Hu. discriminate Hu.
 Qed.
 
